@@ -156,20 +156,25 @@ ASSUMPTIONS['C19'] = ['peel is specified for connected graphs (disconnected inpu
 
 # ----------------------------------------------------------------------------------------------- C09
 def ovl(name, mode, nr, extra=(), **kw):
+    # equal scan positions are ordered by node ADDRESS in the code under test, so the native build may generate a different
+    # (equally valid) constraint set than the executor: a placement that satisfies one need not satisfy the other
+    kw.setdefault('opts', {'native_assume_false_ok': True})
     return Job(name, 'C09_overlap.cpp', ['-DMODE=%d' % mode, '-DNR=%d' % nr] + list(extra), ['libvpsc'], **kw)
 B_OVL = 'rectangle min corners integers in [0,6]^2, widths/heights integers in [1,3] (identical, nested, touching and grid-tie placements included); '
 JOBS['C09'] = {
     'quick': [
         ovl('gen-n2', 0, 2, bounds=B_OVL + '2 rectangles; generateX/YConstraints acyclic + two-stage universally quantified placement claim (placements any multiples of 1/2 in [-12,18])'),
+        ovl('gen-n2-heaprev', 0, 2, ['-DHEAPREV'], bounds=B_OVL + 'same with the heap address order reversed (the other outcome of every pointer tie-break in the scan line)'),
     ],
     'thorough': [
+        ovl('gen-n3-size2-heaprev', 0, 3, ['-DFIXSZ=2', '-DPOS=4', '-DHEAPREV'], bounds='as gen-n3-size2 with the heap address order reversed', time_limit=2400),
         ovl('gen-n3-size2', 0, 3, ['-DFIXSZ=2', '-DPOS=4'], bounds='3 rectangles of size 2x2 with integer min corners in [0,4]^2 (identical, touching, overlapping, tie placements); constraint generation + two-stage placement claim', time_limit=2400),
     ],
 }
 # Not registered (kept in the harness as MODE 1/2 for experiments): removeoverlaps() end to end.  It widens every rectangle by a
 # non-dyadic EXTRA_GAP of 1e-3, so every scan-line comparison is inexact; near-ties fork inside the rounding band, the forks
 # multiply (70k+ paths for two rectangles) and over-approximated paths put the std::set comparator into inconsistent states.
-ASSUMPTIONS['C09'] = ['rectangles have positive width and height (generateYConstraints asserts minX < maxX)', 'removeoverlaps() end to end (size preservation, fixed rectangles, border restoration) is outside the claim: its 1e-3 extra gap makes every comparison inexact and the banded exploration does not terminate within budget; the claim covers the constraint generators, on which the no-overlap guarantee rests']
+ASSUMPTIONS['C09'] = ['where the scan line orders nodes with equal positions by their addresses, both address orders are explored (jobs *-heaprev); paths whose native replay takes the other tie-break are counted as validation-skipped, not validated', 'rectangles have positive width and height (generateYConstraints asserts minX < maxX)', 'removeoverlaps() end to end (size preservation, fixed rectangles, border restoration) is outside the claim: its 1e-3 extra gap makes every comparison inexact and the banded exploration does not terminate within budget; the claim covers the constraint generators, on which the no-overlap guarantee rests']
 
 # ----------------------------------------------------------------------------------------------- C07
 COLA_LIBS = ['libvpsc', 'libcola']
@@ -184,8 +189,9 @@ ASSUMPTIONS['C07'] = ['the claim is about the projection layer (projectOntoCCs /
 def feas(name, nr, flags, **kw):
     return Job(name, 'C08_feasible.cpp', ['-DNR=%d' % nr] + ['-D' + f for f in flags], COLA_LIBS, exclude=('libcola/output_svg.cpp',),
                bounds='ConstrainedFDLayout::makeFeasible, %d rectangles (sizes 10x6, 14x8, 18x10) with integer centres in [0,8]^2 -- [0,k]^2 when the flag PB=k is listed -- (always overlapping initially), options: %s' % (nr, ' '.join(flags)), **kw)
-JOBS['C08'] = {'quick': [feas('feasible-n2-overlap', 2, ['OVERLAP']), feas('feasible-n2-overlap-sep', 2, ['OVERLAP', 'SEP']), feas('feasible-n3-exempt', 3, ['OVERLAP', 'EXEMPT'], time_limit=400), feas('feasible-n2-pinned', 2, ['OVERLAP', 'SEP', 'SEPEQ', 'SEPY'], max_steps=2000000)],
-               'thorough': [feas('feasible-n3-overlap', 3, ['OVERLAP']), feas('feasible-n3-cluster', 3, ['OVERLAP', 'CLUSTER', 'PB=1'], time_limit=1500), feas('feasible-n3-pinned', 3, ['OVERLAP', 'SEP', 'SEPEQ', 'SEPY', 'PB=1'], time_limit=1500)]}
+JOBS['C08'] = {'quick': [feas('feasible-n2-overlap', 2, ['OVERLAP']), feas('feasible-n2-overlap-sep', 2, ['OVERLAP', 'SEP']), feas('feasible-n3-exempt', 3, ['OVERLAP', 'EXEMPT'], time_limit=400), feas('feasible-n2-pinned', 2, ['OVERLAP', 'SEP', 'SEPEQ', 'SEPY'], max_steps=2000000),
+                         feas('feasible-n3-cluster-outsider', 3, ['OVERLAP', 'CLUSTER', 'SYMONLY=2'])],
+               'thorough': [feas('feasible-n3-overlap', 3, ['OVERLAP']), feas('feasible-n3-pinned', 3, ['OVERLAP', 'SEP', 'SEPEQ', 'SEPY', 'PB=1'], time_limit=1500)]}
 ASSUMPTIONS['C08'] = ['claim covers makeFeasible() (the feasibility phase); the subsequent run() descent uses sqrt of symbolic distances and is outside the executor arithmetic; run() re-projects onto the same constraints after every step (composition stated, not proved)']
 
 # ----------------------------------------------------------------------------------------------- C20
